@@ -15,7 +15,7 @@ import (
 )
 
 func TestCheck(t *testing.T) {
-	vkit.Run(t, "C09", "fault_enumeration", func(r *vkit.R) {
+	vkit.Run(t, "C09", "exploration", func(r *vkit.R) {
 		r.Rule("Real flowcontrols.UpstreamLimiter in 'remote' mode over a scripted clientsets.ClientSets whose fake gateway clientsets answer " +
 			"'update ratelimitconditions/status' (allocate) and 'create ratelimitconditions/acquire' (count) from reply functions. " +
 			"(A) allocate strategy: seeded histories of steps {grant(quota,burst) with quota in {honest,0,1,local,global,global+1,2*global,2^31-1,-1,-5,-2^31}, " +
